@@ -51,6 +51,11 @@ CLAIMS = {
    note="Trusted: Coq kernel, extraction, serde derive semantics (library contract exercised by the arena), hand model of which members become Option / skip_serializing_none / deny_unknown_fields, python jsonschema as independent validity oracle. Outside the fragment (not modelled): formats, f64 numbers, maps, unions (C14), enums (C15), defaults (C17); $ref indirection is transparent for the codec.",
    technique="Coq proof (size induction over nested schemas; accept / round-trip / reject theorems) with compiled-code (arena) correspondence and jsonschema cross-validation",
    design="§4 C02", engine="coq+cli+arena"),
+ "C17": dict(
+   text="Coq theorems (closed under the global context) about a model of the default-coercion table (json_to_rust_literal): for EVERY string, boolean and integer (within i64 / u64) a default of the member's own JSON type is rendered as a literal that means exactly that value; null means None; Option members get Some(literal) (C17_string, C17_bool, C17_int_signed, C17_int_unsigned, C17_null, C17_option_wraps). Refuted by witness and kept as known findings: defaults on enum-typed / array / object / date / uuid members become the type's default (C17_refuted_other), out-of-width integer literals (C17_refuted_width), builders ignore defaults (C17_refuted_builder). Tie: exhaustive correspondence over 11 member types x default values of every JSON type x {required, optional} x {builders on, off}: the emitted #[default(..)] expression read back with syn vs the extracted model, and every case compiled in the arena and observed three ways (decode of {}, T::default(), T::builder().build()).",
+   note="Trusted: Coq kernel, extraction, hand model of coercion.rs (floats outside the model, observed only), better_default / serde(default) / bon semantics exercised in the arena rather than modelled. The theorems are case analyses over the coercion table; the agreement of the three ways is an observation of the arena (exhaustive over the lattice), not a theorem.",
+   technique="Coq proof (case analysis over the coercion table, all strings/integers) with exhaustive syn + compiled-code (arena) correspondence",
+   design="§4 C17", engine="coq+cli+arena"),
 }
 
 checks = []
